@@ -28,8 +28,13 @@ What is mirrored, with the line ranges of the repaired file:
 * the formula manager's symbol table and fresh-name counter (`formula.py:108-146`): `Symbol` refuses a second sort for a
   name, `FreshSymbol(template)` counts up from `_fresh_guess` until the name is free.
 
-Not modelled (`Err.unmodelled`, the driver answers `out-of-fragment`): `define-sort` with parameters that are used, `(_ to_bv w)` outside the head position, the literal cache of `atom` (only observable when `set-logic` comes
-after a literal), annotations' storage (`cache.annotations`; the returned term is modelled).
+Not modelled (`Err.unmodelled`, the driver answers `out-of-fragment`): `define-sort` with parameters that are used, `(_ to_bv w)` outside the head position, the cache `atom` keeps of the *literals* it has read (`self.cache.bind(token, res)`; the cached value of a literal
+token is the value the token would be given again, except when `set-logic` comes after the literal; since repair P14 the
+String fallback of an unknown name is no longer cached — before it, `(get-value (foo))` made `foo` a String constant in
+every later term), literals the standard lexer cannot produce and Python accepts (F16/F16b class: a token `"abc"` coming
+from the quoted symbol `|"abc"|` is the string `abc` for pySMT and an error here; `1_0`, `٣` and other `Fraction`/`int`
+spellings with `_`, blanks or non-ASCII digits are numbers for pySMT and unknown names here: `notLiteralStrict` of
+`Proofs/C08Model2.lean` excludes them, the weaker `notLiteral` of `Proofs/C08Model.lean` does not), annotations' storage (`cache.annotations`; the returned term is modelled).
 -/
 namespace PySMT.Parser
 open PySMT.Gen.ParserOps
@@ -343,7 +348,7 @@ def applySpecial (fn : String) (args : List Term) : Except Err Term :=
       if Mk.isConstant a && Mk.isConstant b then
         match constNum a, constNum b with
         | some x, some y => if y ≠ 0 then .ok (Term.real (x / y)) else fixReal "Div" [a, b]
-        | _, _ => .error .unmodelled
+        | _, _ => fixReal "Div" [a, b]        -- only numeric constants are folded (repair P15)
       else fixReal "Div" [a, b]
     | _ => .error .other
   else if fn == "_equals_or_iff" then
